@@ -321,6 +321,9 @@ class HybridClass(metaclass=MetaHybridClass):
                     # the attribute is an nplike array: compare it with
                     # an nplike array (any number of dimensions)
                     default = default.to_nplike()
+                elif hasattr(default, "to_str"):
+                    # the attribute is a python string
+                    default = default.to_str()
                 defaults[pyname] = default
             except (TypeError, ValueError):
                 # The above can fail with different error types
